@@ -50,6 +50,7 @@ type half struct {
 	readable   []byte
 	wclosed    bool // writer end closed: EOF after everything delivered
 	reset      bool
+	wfail      bool // writes in this direction fail (the peer's RST reached the writer), reads are unaffected
 	auto       bool
 	limit      int // >0: Write blocks while pendingLen+len(readable) >= limit (back pressure)
 	wire       []byte
@@ -187,7 +188,7 @@ func (e *End) Write(p []byte) (int, error) {
 		if e.closed {
 			return 0, net.ErrClosed
 		}
-		if h.reset {
+		if h.reset || h.wfail {
 			return 0, ErrReset
 		}
 		if h.limit > 0 && h.pendingLen+len(h.readable) >= h.limit && !e.peer().closed {
@@ -671,4 +672,13 @@ func (d *Dialer) Requested() []string {
 	d.mu.Lock()
 	defer d.mu.Unlock()
 	return append([]string(nil), d.Addrs...)
+}
+
+// BreakWrites makes every later Write in direction d fail with a reset error while leaving the other
+// direction and already delivered bytes alone (the writer learns about the peer's reset when it writes).
+func (l *Link) BreakWrites(d Dir) {
+	l.mu.Lock()
+	l.h[d].wfail = true
+	l.cond.Broadcast()
+	l.mu.Unlock()
 }
